@@ -362,6 +362,11 @@ impl<'a> Walker<'a> {
                     Stmt::Lv(self.ent(('L', o, 0), n, Some(func), ""))
                 }
                 Stmt::Use(r) => Stmt::Use(r.clone()),
+                // `lvi` belongs to the names stream; the res stream never generates it (treated as a plain local)
+                Stmt::Lvi(n, _) => {
+                    let o = self.next('L');
+                    Stmt::Lv(self.ent(('L', o, 0), n, Some(func), ""))
+                }
                 Stmt::Block(b) => Stmt::Block(self.stmts(b, func)),
             })
             .collect()
@@ -490,7 +495,7 @@ fn src_stmts(ss: &[Stmt], t: &RTable, out: &mut String, depth: usize) {
     for s in ss {
         out.push_str(&"    ".repeat(depth));
         match s {
-            Stmt::Lv(n) => out.push_str(&format!("int {} = 0;\n", n)),
+            Stmt::Lv(n) | Stmt::Lvi(n, _) => out.push_str(&format!("int {} = 0;\n", n)),
             Stmt::Block(b) => {
                 out.push_str("{\n");
                 src_stmts(b, t, out, depth + 1);
@@ -1950,10 +1955,10 @@ pub fn sanitize(items: &[RItem]) -> Vec<RItem> {
         let mut out = Vec::new();
         for s in ss {
             match s {
-                Stmt::Lv(n) => {
+                Stmt::Lv(n) | Stmt::Lvi(n, _) => {
                     vis.push((*nl, n.clone()));
                     *nl += 1;
-                    out.push(s.clone());
+                    out.push(Stmt::Lv(n.clone()));
                 }
                 Stmt::Block(b) => {
                     let mark = vis.len();
